@@ -3,6 +3,8 @@ package main
 
 import (
 	"bufio"
+	dsql "database/sql"
+	"sort"
 	"fmt"
 	"os"
 	"strings"
@@ -20,6 +22,9 @@ func main() {
 	core.StmtTimeout = 8 * time.Second
 	e := core.NewEng("d")
 	ss := map[string]*core.Sess{}
+	wdb := map[string]*dsql.DB{}
+	wst := map[string]*dsql.Stmt{}
+	var srv *core.Srv
 	sc := bufio.NewScanner(os.Stdin)
 	sc.Buffer(make([]byte, 1<<20), 1<<20)
 	for sc.Scan() {
@@ -28,8 +33,78 @@ func main() {
 			continue
 		}
 		tag := "s0"
-		if len(line) > 3 && line[0] == 's' && line[2] == ':' {
+		if len(line) > 3 && (line[0] == 's' || line[0] == 'w') && line[2] == ':' {
 			tag, line = line[:2], strings.TrimSpace(line[3:])
+		}
+		if tag[0] == 'w' {
+			db, ok := wdb[tag]
+			if !ok {
+				if srv == nil {
+					var err error
+					srv, _, err = g10lib.StartServer(e, "")
+					if err != nil {
+						panic(err)
+					}
+				}
+				db, _ = srv.Open("root", "", "")
+				wdb[tag] = db
+			}
+			fmt.Printf("%s> %s\n", tag, line)
+			if strings.HasPrefix(strings.ToUpper(line), "SELECT") {
+				rows, err := db.Query(line)
+				if err != nil {
+					fmt.Println("   ERR", err)
+					continue
+				}
+				cols, _ := rows.Columns()
+				var out []string
+				for rows.Next() {
+					cells := make([]dsql.NullString, len(cols))
+					ptrs := make([]any, len(cols))
+					for i := range cells {
+						ptrs[i] = &cells[i]
+					}
+					rows.Scan(ptrs...)
+					var parts []string
+					for _, c := range cells {
+						if c.Valid {
+							parts = append(parts, c.String)
+						} else {
+							parts = append(parts, "NULL")
+						}
+					}
+					out = append(out, strings.Join(parts, "|"))
+				}
+				rows.Close()
+				sort.Strings(out)
+				fmt.Println("  ", out)
+			} else if strings.HasPrefix(line, "WPREP: ") {
+				st, err := db.Prepare(line[7:])
+				fmt.Println("   prepared", err)
+				wst[tag] = st
+			} else if strings.HasPrefix(line, "WEXEC: ") {
+				var pv int64
+				fmt.Sscan(line[7:], &pv)
+				rows, err := wst[tag].Query(pv)
+				if err != nil {
+					fmt.Println("   ERR", err)
+					continue
+				}
+				n := 0
+				for rows.Next() {
+					n++
+				}
+				rows.Close()
+				fmt.Println("   rows:", n)
+			} else {
+				_, err := db.Exec(line)
+				if err != nil {
+					fmt.Println("   ERR", err)
+				} else {
+					fmt.Println("   ok")
+				}
+			}
+			continue
 		}
 		s, ok := ss[tag]
 		if !ok {
@@ -46,6 +121,11 @@ func main() {
 			continue
 		}
 		var r *core.Result
+		if strings.HasPrefix(line, "PREP: ") {
+			_, err := s.Eng.E.PrepareQuery(s.Ctx(), line[6:])
+			fmt.Printf("%s> %s\n   prepare err=%v\n", tag, line, err)
+			continue
+		}
 		if strings.HasPrefix(line, "API: ") {
 			parts := strings.Split(line[5:], " ## ")
 			var pv int64
